@@ -1044,7 +1044,11 @@ impl<'a> Searcher<'a> {
             VariantType::Float => Variant::from_float(-value.to_float()),
             _ => match value.to_string().parse::<f64>() {
                 Ok(number) => Variant::from_float(-number),
-                _ => value,
+                // a size with a unit (`-fsize`) is the number arithmetic takes it for: `-fsize + 0` is `0 - fsize`
+                _ => match parse_filesize_exact(&value.to_string()) {
+                    Some(number) => Variant::from_float(-number),
+                    _ => value,
+                },
             },
         }
     }
